@@ -66,7 +66,7 @@ func contract(w *World, r *Result, refExit int, g *FileObs) (clause, detail stri
 		return "input-modified", "input files were modified: " + strings.Join(r.InputsChanged, ", ")
 	}
 	if r.Exit == 0 {
-		if w.OutKind == "devnull" || w.OutKind == "devfull" {
+		if w.OutKind == "devnull" || w.OutKind == "devfull" || w.OutKind == "devzero" || w.OutKind == "pipe" {
 			if w.OutKind == "devfull" {
 				return "exit0-without-output", "exit 0 although every write to /dev/full fails with ENOSPC"
 			}
